@@ -228,8 +228,9 @@ def op_of(F, b, t):
     return None
 
 
-def paths_ops(F, b):
-    """{decision-key: [ops]} for every acyclic path entry -> return of a small function."""
+def paths_ops(F, b, _stack=()):
+    """{decision-key: [ops]} for every acyclic path entry -> return of a small function. A call of another workspace function that
+    itself applies Math ops (a map delegating to the map of its diagonal part) contributes the callee's sequence in place."""
     out = {}
     succ = b.succ_map()
 
@@ -245,6 +246,16 @@ def paths_ops(F, b):
                 o = op_of(F, b, t)
                 if o:
                     ops2 = ops + [o]
+            else:
+                cb = F.bodies.get(c.get("resolved") or c["path"])
+                if cb is not None and cb.kind != "closure" and cb.blocks and cb.path != b.path and cb.path not in _stack and len(_stack) < 3 \
+                        and t.get("target") is not None:
+                    sub = paths_ops(F, cb, _stack + (b.path,))
+                    sub = {d: o for d, o in sub.items() if o}
+                    if sub:
+                        for d, o in sorted(sub.items()):
+                            walk(t["target"], ops + o, decisions + list(d), seen | {bb})
+                        return
         if t["k"] == "return":
             out[tuple(sorted(decisions))] = ops2
             return
